@@ -1381,6 +1381,103 @@ impl<const N: usize> ScenN<N> {
         }
     }
 
+    /// `offfault <seed>`: in a scratch directory, a closed blob whose bloom buffer was off-loaded loses the bytes of its index file
+    /// while the session is running (the file is cut to 0 / to a prefix through its path; the open descriptor sees it).  A filter
+    /// that cannot be read must not answer "definitely absent" for a stored key: check_filters is not Some(false), read and
+    /// contains either serve the record or report an error, never NotFound.
+    fn offfault(&mut self, toks: &[&str]) -> String {
+        let mut x: u64 = toks.get(1).and_then(|x| x.parse().ok()).unwrap_or(1) | 1;
+        let mut rnd = move || {
+            x ^= x << 13;
+            x ^= x >> 7;
+            x ^= x << 17;
+            x
+        };
+        let live = self.st.take();
+        let orig = self.dir.clone();
+        let saved_bloom = self.cfg.bloom;
+        if self.cfg.bloom.is_none() {
+            self.cfg.bloom = Some((100, 2, 1000));
+        }
+        let scratch = orig.with_file_name(format!("{}-off", orig.file_name().unwrap().to_string_lossy()));
+        let _ = std::fs::remove_dir_all(&scratch);
+        self.dir = scratch.clone();
+        let nkeys = 3 + (rnd() % 6) as usize;
+        let keys: Vec<Vec<u8>> = (0..nkeys).map(|i| { let mut k = vec![(rnd() % 251) as u8; N]; k[0] = i as u8; k }).collect();
+        let mut bad: Option<String> = None;
+        let mut n = 0usize;
+        let r = self.open(false);
+        if r != "ok" {
+            bad = Some(format!("open of an empty directory: {}", r));
+        }
+        if bad.is_none() {
+            let mut stv = self.st.take().unwrap();
+            let st = &mut stv;
+            let cut = [0u64, 0, 8, 40][(rnd() % 4) as usize];
+            let idx = scratch.join("t.0.index");
+            let res: Result<(), String> = self.rt.block_on(async {
+                use pearl::BloomProvider;
+                for (i, key) in keys.iter().enumerate() {
+                    let k = ArrayKey::<N>::from(key.clone());
+                    st.write(&k, Bytes::from(gen_data(1 + i * 7, 3 + i as u64)), BlobRecordTimestamp::new(1 + i as u64)).await
+                        .map_err(|e| format!("write: {}", err_kind(&e)))?;
+                }
+                st.try_close_active_blob().await.map_err(|e| format!("close_active: {}", err_kind(&e)))?;
+                st.try_create_active_blob().await.map_err(|e| format!("create_active: {}", err_kind(&e)))?;
+                let _ = Self::settle(st).await;
+                if !idx.exists() {
+                    return Err("the closed blob has no index file".to_string());
+                }
+                let _ = st.offload_buffer(usize::MAX, 0).await;
+                for key in &keys {
+                    let k = ArrayKey::<N>::from(key.clone());
+                    if st.check_filters(&k).await == Some(false) {
+                        return Err(format!("healthy off-loaded filter: check_filters says absent for stored key {}", crate::util::bytes_hex(key)));
+                    }
+                    match st.read(&k).await {
+                        Ok(ReadResult::Found(_)) => {}
+                        _ => return Err(format!("healthy off-loaded filter: stored key {} is not read", crate::util::bytes_hex(key))),
+                    }
+                }
+                let f = std::fs::OpenOptions::new().write(true).open(&idx).map_err(|e| format!("open index: {}", e))?;
+                f.set_len(cut).map_err(|e| format!("set_len: {}", e))?;
+                drop(f);
+                for key in &keys {
+                    n += 1;
+                    let k = ArrayKey::<N>::from(key.clone());
+                    if st.check_filters(&k).await == Some(false) {
+                        return Err(format!("index file cut to {} bytes: check_filters says definitely absent for stored key {}", cut, crate::util::bytes_hex(key)));
+                    }
+                    if st.check_filter(&k).await == pearl::FilterResult::NotContains {
+                        return Err(format!("index file cut to {} bytes: check_filter says NotContains for stored key {}", cut, crate::util::bytes_hex(key)));
+                    }
+                    if let Ok(ReadResult::NotFound) = st.read(&k).await {
+                        return Err(format!("index file cut to {} bytes: read of stored key {} answers NotFound without an error", cut, crate::util::bytes_hex(key)));
+                    }
+                    if let Ok(ReadResult::NotFound) = st.contains(&k).await {
+                        return Err(format!("index file cut to {} bytes: contains of stored key {} answers NotFound without an error", cut, crate::util::bytes_hex(key)));
+                    }
+                }
+                Ok(())
+            });
+            self.st = Some(stv);
+            if let Err(e) = res {
+                bad = Some(e);
+            }
+        }
+        if let Some(st) = self.st.take() {
+            let _ = self.rt.block_on(async { tokio::time::timeout(Duration::from_secs(60), st.close()).await });
+        }
+        let _ = std::fs::remove_dir_all(&scratch);
+        self.dir = orig;
+        self.st = live;
+        self.cfg.bloom = saved_bloom;
+        match bad {
+            None => format!("sweep ok n={}", n),
+            Some(b) => format!("sweep bad {}", b),
+        }
+    }
+
     /// like `parse_blob`, but only the records that lie completely inside the image
     fn parse_blob_full(bytes: &[u8]) -> Vec<(usize, usize, usize, usize)> {
         Self::parse_blob(bytes).into_iter().filter(|(s0, h, m, d)| s0 + h + m + d <= bytes.len()).collect()
@@ -2037,6 +2134,9 @@ impl<const N: usize> ScenN<N> {
         }
         if toks[0] == "metasweep" {
             return self.metasweep(&toks);
+        }
+        if toks[0] == "offfault" {
+            return self.offfault(&toks);
         }
         if toks[0] == "conc" {
             return self.conc(&toks);
